@@ -118,10 +118,10 @@ func (g *Gen) nodeService(peer string, node ...string) *structs.NodeService {
 		}
 		if g.chance(4) {
 			ns.Proxy.Mode = structs.ProxyModeTransparent
-			if g.chance(2) {
-				// a transparent proxy need not declare any upstream (also: an instance re-registered without the ones it had)
-				ns.Proxy.Upstreams = nil
-			}
+		}
+		if g.chance(3) {
+			// a proxy need not declare any upstream (also: an instance re-registered without the ones it had)
+			ns.Proxy.Upstreams = nil
 		}
 	case 2:
 		// connect-native-ness is a property of the instance id for its whole life (toggling it on a live id is
